@@ -1124,4 +1124,171 @@ theorem checkNoteTimer_ev (hc : Ctx off w Pv ts) (h : GE Pv ts e s) :
   rintro _ s1 ⟨g1, c1⟩
   exact Sat.pure ⟨g1, c1⟩
 
+/-- the source span of a content event (`none` for block markers and diagnostics) -/
+def Ev.srcSpan : Ev α → Option Span
+  | .text t => some t.span
+  | .ingredient i => some i.span
+  | .cookware c => some c.span
+  | .timer t => some t.span
+  | .metadata k v => some ⟨k.span.start, v.span.stop⟩
+  | .«section» (some n) => some n.span
+  | _ => none
+
+/-- the source span of the event lies between the cursor positions `c` and `c'` -/
+def EvIn (ts : List Tok) (c c' : Nat) (ev : Ev α) : Prop :=
+  ∀ sp, ev.srcSpan = some sp → offAt ts c ≤ sp.start ∧ sp.stop ≤ offAt ts c'
+
+/-- what a component parser returns: an event with good spans, located between the cursor before
+    and the cursor after -/
+def CompRet (off : Nat) (w : List Char) (ts : List Tok) (c c' : Nat) (r : Option (Ev α)) : Prop :=
+  OptOK (fun ev => EvSpansOK off w ev ∧ EvIn ts c c' ev) r
+
+theorem ingredientP_ev (hc : Ctx off w Pv ts) (h : GE Pv ts e s) :
+    Sat (ingredientP (α := α)) s (fun r s' => GE Pv ts e s' ∧ (r.isSome = true → s.cur < s'.cur) ∧
+      CompRet off w ts s.cur s'.cur r) := by
+  unfold ingredientP
+  refine Sat.bind (currentOffset_sat h.g ?_)
+  refine Sat.bind (Sat.mono (consumeK_ge _ h) ?_)
+  rintro r1 s1 ⟨g1, h1⟩
+  cases r1 with
+  | none => exact Sat.pure ⟨g1, by simp, trivial⟩
+  | some m =>
+    obtain ⟨-, -, c1⟩ := h1
+    refine Sat.bind (currentOffset_sat g1.g ?_)
+    refine Sat.bind (Sat.mono (modifiersP_ev g1) ?_)
+    rintro mtoks s2 ⟨g2, c2, hm, hmt⟩
+    have hrm : RunIn off w (offAt ts s1.cur) mtoks := by rw [hmt]; exact hc.wfi.slice c2
+    refine Sat.bind (currentOffset_sat g2.g ?_)
+    refine Sat.bind (Sat.mono (compBody_ev hc g2) ?_)
+    rintro r3 s3 ⟨g3, h3⟩
+    cases r3 with
+    | none => exact Sat.pure ⟨g3, by simp, trivial⟩
+    | some body =>
+      obtain ⟨c3, hname, hq, -⟩ := h3
+      refine Sat.bind (Sat.mono (noteP_ev hc g3) ?_)
+      rintro note s4 ⟨g4, c4, hnote⟩
+      refine Sat.bind (currentOffset_sat g4.g ?_)
+      refine Sat.bind (Sat.mono (parseAlias_ev hc "ingredient" hname g4) ?_)
+      rintro ⟨name, alias⟩ s5 ⟨g5, c5, hnm, hal⟩
+      dsimp only at hnm hal ⊢
+      refine Sat.bind (Sat.mono (checkEmptyName_ev hc "ingredient" name hnm g5) ?_)
+      rintro _ s6 ⟨g6, c6⟩
+      refine Sat.bind (Sat.mono (parseModifiers_ev hc mtoks _ g6 hm hrm (hc.wfi.offAt _)) ?_)
+      rintro pm s7 ⟨g7, c7, -, hfsp, hint⟩
+      apply Sat.bind
+      apply Sat.mono (Q := fun r s' => GE Pv ts e s' ∧ s'.cur = s7.cur ∧ OptOK (LocQOK off w) r)
+      · split
+        · rename_i qt hqt
+          refine Sat.bind (Sat.mono (parseQuantity_ev hc (hq qt hqt) g7) ?_)
+          rintro q s8 ⟨g8, c8, hqr⟩
+          exact Sat.pure ⟨g8, c8, hqr.1⟩
+        · exact Sat.pure ⟨g7, rfl, trivial⟩
+      rintro quantity s8 ⟨g8, c8, hqo⟩
+      have hcur : s8.cur = s4.cur := by omega
+      refine Sat.pure ⟨g8, fun _ => by omega, ⟨?_, hfsp, hint, hnm, hal, hqo, hnote⟩, ?_⟩
+      · exact hc.wfi.span (by omega)
+      · intro sp hsp
+        simp only [Ev.srcSpan, Option.some.injEq] at hsp
+        subst hsp
+        exact ⟨Nat.le_refl _, hc.wfi.offAt_mono (by omega)⟩
+
+theorem cookwareP_ev (hc : Ctx off w Pv ts) (h : GE Pv ts e s) :
+    Sat (cookwareP (α := α)) s (fun r s' => GE Pv ts e s' ∧ (r.isSome = true → s.cur < s'.cur) ∧
+      CompRet off w ts s.cur s'.cur r) := by
+  unfold cookwareP
+  refine Sat.bind (currentOffset_sat h.g ?_)
+  refine Sat.bind (Sat.mono (consumeK_ge _ h) ?_)
+  rintro r1 s1 ⟨g1, h1⟩
+  cases r1 with
+  | none => exact Sat.pure ⟨g1, by simp, trivial⟩
+  | some m =>
+    obtain ⟨-, -, c1⟩ := h1
+    refine Sat.bind (currentOffset_sat g1.g ?_)
+    refine Sat.bind (Sat.mono (modifiersP_ev g1) ?_)
+    rintro mtoks s2 ⟨g2, c2, hm, hmt⟩
+    have hrm : RunIn off w (offAt ts s1.cur) mtoks := by rw [hmt]; exact hc.wfi.slice c2
+    refine Sat.bind (currentOffset_sat g2.g ?_)
+    refine Sat.bind (Sat.mono (compBody_ev hc g2) ?_)
+    rintro r3 s3 ⟨g3, h3⟩
+    cases r3 with
+    | none => exact Sat.pure ⟨g3, by simp, trivial⟩
+    | some body =>
+      obtain ⟨c3, hname, hq, -⟩ := h3
+      refine Sat.bind (Sat.mono (noteP_ev hc g3) ?_)
+      rintro note s4 ⟨g4, c4, hnote⟩
+      refine Sat.bind (currentOffset_sat g4.g ?_)
+      refine Sat.bind (Sat.mono (parseAlias_ev hc "cookware" hname g4) ?_)
+      rintro ⟨name, alias⟩ s5 ⟨g5, c5, hnm, hal⟩
+      dsimp only at hnm hal ⊢
+      refine Sat.bind (Sat.mono (checkEmptyName_ev hc "cookware" name hnm g5) ?_)
+      rintro _ s6 ⟨g6, c6⟩
+      apply Sat.bind
+      apply Sat.mono (Q := fun r s' => GE Pv ts e s' ∧ s'.cur = s6.cur ∧
+        OptOK (fun q : Loc (PQValue α) => SpanOK off w q.span ∧ PQValueOK off w q.val) r)
+      · split
+        · rename_i qt hqt
+          refine Sat.bind (Sat.mono (parseQuantity_ev hc (hq qt hqt) g6) ?_)
+          rintro q s7 ⟨g7, c7, hqr⟩
+          split
+          · rename_i unit hunit
+            have hut : TextOK off w unit := by
+              have := hqr.1.2.2
+              rw [hunit] at this; exact this
+            refine Sat.bind (Sat.perrE ?_)
+            refine Sat.pure ⟨g7.err hc (one_label ?_), c7, hqr.1.1, hqr.1.2.1⟩
+            split
+            · rename_i sep hsep
+              have hs : SpanOK off w sep := by
+                have := hqr.2.1
+                rw [hsep] at this; exact this
+              exact ⟨hs.1, hut.1.2.1, hqr.2.2 sep unit hsep hunit⟩
+            · exact hut.1
+          · exact Sat.pure ⟨g7, c7, hqr.1.1, hqr.1.2.1⟩
+        · exact Sat.pure ⟨g6, rfl, trivial⟩
+      rintro quantity s7 ⟨g7, c7, hqo⟩
+      refine Sat.bind (Sat.mono (parseModifiers_ev hc mtoks _ g7 hm hrm (hc.wfi.offAt _)) ?_)
+      rintro pm s8 ⟨g8, c8, hrec, hfsp, hint⟩
+      have fin : ∀ s9 : BP α, GE Pv ts e s9 → s9.cur = s8.cur →
+          Sat (pure (some (Ev.cookware ⟨⟨pm.flags, name, alias, quantity, note⟩,
+              ⟨offAt ts s.cur, offAt ts s4.cur⟩⟩)) : P α (Option (Ev α))) s9
+            (fun r s' => GE Pv ts e s' ∧ (r.isSome = true → s.cur < s'.cur) ∧
+              CompRet off w ts s.cur s'.cur r) := by
+        intro s9 g9 c9
+        refine Sat.pure ⟨g9, fun _ => by omega, ⟨?_, hfsp, hnm, hal, hqo, hnote⟩, ?_⟩
+        · exact hc.wfi.span (by omega)
+        · intro sp hsp
+          simp only [Ev.srcSpan, Option.some.injEq] at hsp
+          subst hsp
+          exact ⟨Nat.le_refl _, hc.wfi.offAt_mono (by omega)⟩
+      have hrcp : ∀ s9 : BP α, GE Pv ts e s9 → s9.cur = s8.cur →
+          Sat (do
+            if pm.flags.val.contains Modifiers.RECIPE then
+              match mtoks.find? (fun t => t.kind == .at) with
+              | some t => perr "cookware-recipe-modifier" [⟨t.start, t.stop⟩]
+              | none => panicWith "no recipe token in modifiers with recipe"
+            return some (Ev.cookware ⟨⟨pm.flags, name, alias, quantity, note⟩,
+              ⟨offAt ts s.cur, offAt ts s4.cur⟩⟩) : P α (Option (Ev α))) s9
+            (fun r s' => GE Pv ts e s' ∧ (r.isSome = true → s.cur < s'.cur) ∧
+              CompRet off w ts s.cur s'.cur r) := by
+        intro s9 g9 c9
+        split
+        · rename_i hcc
+          obtain ⟨t, htm, htk⟩ := hrec hcc
+          split
+          · rename_i t' hfind
+            refine Sat.bind (Sat.perrE ?_)
+            exact fin _ (g9.err hc (one_label (hrm.tok (List.mem_of_find?_eq_some hfind)))) c9
+          · rename_i hnone
+            exfalso
+            rw [List.find?_eq_none] at hnone
+            exact hnone t htm (by simp [htk])
+        · exact Sat.bind (Sat.pure (fin _ g9 c9))
+      split
+      · rename_i d hd
+        refine Sat.bind (Sat.perrE ?_)
+        refine hrcp _ (g8.err hc (one_label ?_)) rfl
+        have := hint
+        rw [hd] at this; exact this
+      · exact Sat.bind (Sat.pure (hrcp _ g8 rfl))
+
 end Cook
